@@ -260,7 +260,7 @@ SRC_MODULES = {
     "Anonymongo.Src.RedactMongoLog_eq": "Line", "Anonymongo.Src.RedactMongoLog_eq_gen": "Line", "Anonymongo.Src.RedactMongoLog_err": "Line",
     "Anonymongo.Src.k12_eq": "Line", "Anonymongo.Src.k3_eq_obj": "Line", "Anonymongo.Src.attrFrom12_model": "Line", "Anonymongo.Src.Gen_ipPH": "Line",
     "Anonymongo.Src.RedactMongoLog_returns": "EndToEnd", "Anonymongo.Src.C04_src": "EndToEnd", "Anonymongo.Src.C01_remote_src": "EndToEnd",
-    "Anonymongo.Src.witness_callees": "EndToEnd", "Anonymongo.Src.C07_src": "EndToEnd",
+    "Anonymongo.Src.witness_callees": "EndToEnd", "Anonymongo.Src.C07_src": "EndToEnd", "Anonymongo.Src.C07_src_len": "ParseDepth", "Anonymongo.Src.parseObj_depth": "ParseDepth",
     "Anonymongo.Src.ReadKeyFromFile_eq": "Key", "Anonymongo.Src.ReadKeyFromFile_accepts": "Key",
     "Anonymongo.Src.WriteKeyToFile_eq": "Key", "Anonymongo.Src.WriteKeyToFile_model": "Key", "Anonymongo.Src.Write_then_Read": "Key",
     "Anonymongo.Src.FileExists_eq": "Key", "Anonymongo.Src.FileExists_model": "Key",
@@ -286,7 +286,7 @@ SRC_THEOREMS = {
     "C02": _LEAF + _WALK,
     "C03": ["Anonymongo.Src.redactScalarValue_eq"] + _WALK,
     "C05": _LEAF + _WALK,
-    "C07": _LEAF + _PATH + _HELP + _WALK + _DISP + _CMD + ["Anonymongo.Src.redactNamespace_eq"] + _LINE + ["Anonymongo.Src.C07_src", "Anonymongo.Src.RedactMongoLog_returns", "Anonymongo.Src.witness_callees"],
+    "C07": _LEAF + _PATH + _HELP + _WALK + _DISP + _CMD + ["Anonymongo.Src.redactNamespace_eq"] + _LINE + ["Anonymongo.Src.C07_src", "Anonymongo.Src.C07_src_len", "Anonymongo.Src.parseObj_depth", "Anonymongo.Src.RedactMongoLog_returns", "Anonymongo.Src.witness_callees"],
     "C10": ["Anonymongo.Src.redactString_eq", "Anonymongo.Src.redactScalarValue_eq"] + _WALK,
     "C11": ["Anonymongo.Src.ReadKeyFromFile_eq", "Anonymongo.Src.ReadKeyFromFile_accepts", "Anonymongo.Src.WriteKeyToFile_eq",
             "Anonymongo.Src.WriteKeyToFile_model", "Anonymongo.Src.Write_then_Read", "Anonymongo.Src.FileExists_eq", "Anonymongo.Src.FileExists_model"],
